@@ -700,6 +700,130 @@ fn big_window_stage(ctx: &Ctx, kind: Kind, steps: usize) -> JobOut {
     out
 }
 
+/// (I) period sweep: an instance's outputs must not depend on which OTHER parameters were used in the
+/// process before (a process-wide memo / table keyed by a hash of the period shows only when the
+/// colliding period was used just before).  Baseline: digests of the outputs for every period 1..=600
+/// computed in two FRESH processes (ascending and descending order - they must agree with each
+/// other); then, in this process, for each probe period p in {3, 9, 14, 20} and every q in 1..=600:
+/// an instance of period p is driven past its full window, then a fresh instance of period q, whose
+/// outputs must have the baseline digest.
+const SWEEP_MAX: usize = 600;
+
+fn sweep_cfg(kind: Kind, p: usize) -> Cfg {
+    if kind.has_mult() {
+        Cfg::pm(kind, p, 2.0)
+    } else {
+        Cfg::p1(kind, p)
+    }
+}
+
+fn sweep_op(kind: Kind, i: usize) -> Op {
+    let x = 50.0 + ((i * 37) % 101) as f64 * 0.37 + (i % 7) as f64 * 0.013;
+    if kind.has_scalar() {
+        Op::S(x)
+    } else {
+        Op::B(Bar { o: x, h: x * 1.01, l: x * 0.99, c: x * (0.995 + 0.005 * (i % 3) as f64), v: 1.0 + (i % 4) as f64 })
+    }
+}
+
+/// digest of the outputs of a fresh instance of period q fed q + 3 inputs; None if it panics
+fn sweep_digest(kind: Kind, q: usize) -> Option<u64> {
+    std::panic::catch_unwind(std::panic::AssertUnwindSafe(|| {
+        let mut s = make(&sweep_cfg(kind, q));
+        let mut h = 0xcbf29ce484222325u64;
+        for i in 0..q + 3 {
+            let o = s.apply(&sweep_op(kind, i));
+            for j in 0..o.n as usize {
+                h = (h ^ o.v[j].to_bits()).wrapping_mul(0x100000001b3);
+            }
+        }
+        h
+    }))
+    .ok()
+}
+
+/// `mc digest <kind> asc|desc`: one line per period, "q digest" (or "q panic")
+pub fn digest_main(kind_name: &str, order: &str) -> i32 {
+    let kind = match Kind::from_name(kind_name) {
+        Some(k) => k,
+        None => return 2,
+    };
+    let qs: Vec<usize> = if order == "desc" { (1..=SWEEP_MAX).rev().collect() } else { (1..=SWEEP_MAX).collect() };
+    for q in qs {
+        match sweep_digest(kind, q) {
+            Some(d) => println!("{} {:016x}", q, d),
+            None => println!("{} panic", q),
+        }
+    }
+    0
+}
+
+fn fresh_process_digests(kind: Kind, order: &str) -> Result<std::collections::HashMap<usize, String>, String> {
+    let exe = std::env::current_exe().map_err(|e| e.to_string())?;
+    let o = std::process::Command::new(exe).args(["digest", kind.name(), order]).output().map_err(|e| e.to_string())?;
+    if !o.status.success() {
+        return Err(format!("digest helper exited with {:?}", o.status.code()));
+    }
+    let mut m = std::collections::HashMap::new();
+    for l in String::from_utf8_lossy(&o.stdout).lines() {
+        let mut it = l.split_whitespace();
+        if let (Some(q), Some(d)) = (it.next(), it.next()) {
+            if let Ok(q) = q.parse::<usize>() {
+                m.insert(q, d.to_string());
+            }
+        }
+    }
+    if m.len() != SWEEP_MAX {
+        return Err(format!("digest helper printed {} lines", m.len()));
+    }
+    Ok(m)
+}
+
+fn period_sweep_stage(kind: Kind, machinery: &mut Vec<String>) -> JobOut {
+    let mut out = JobOut::default();
+    let (asc, desc) = match (fresh_process_digests(kind, "asc"), fresh_process_digests(kind, "desc")) {
+        (Ok(a), Ok(d)) => (a, d),
+        (Err(e), _) | (_, Err(e)) => {
+            machinery.push(format!("C05 period sweep: {}", e));
+            return out;
+        }
+    };
+    let report = |out: &mut JobOut, q: usize, got: String, want: &str, how: String| {
+        let ops: Vec<Op> = (0..q + 3).map(|i| sweep_op(kind, i)).collect();
+        out.fail(
+            Violation::new(PROP, &sweep_cfg(kind, q), &ops, "not-independent")
+                .obs(format!("output digest {}", got))
+                .exp(format!("output digest {}", want))
+                .det(format!("the outputs of a fresh instance fed the history shown depend on which other instances of the indicator were used in the process before: {}", how))
+                .with("setup", how),
+        );
+    };
+    for q in 1..=SWEEP_MAX {
+        out.stats.evaluations += 1;
+        if asc[&q] != desc[&q] {
+            report(&mut out, q, desc[&q].clone(), &asc[&q], "a fresh process running periods 600 down to 1 vs a fresh process running periods 1 up to 600".into());
+            return out;
+        }
+    }
+    for p in [14usize, 9, 20, 3] {
+        for q in 1..=SWEEP_MAX {
+            out.stats.traces += 2;
+            out.stats.transitions += (p + q + 6) as u64;
+            out.stats.evaluations += 1;
+            let _ = sweep_digest(kind, p);
+            let got = match sweep_digest(kind, q) {
+                Some(d) => format!("{:016x}", d),
+                None => "panic".to_string(),
+            };
+            if got != asc[&q] {
+                report(&mut out, q, got, &asc[&q], format!("right after an instance of period {} had been driven past its full window in this process (baseline: a fresh process)", p));
+                return out;
+            }
+        }
+    }
+    out
+}
+
 /// Supplementary, SAMPLING: free-running threads each owning distinct instances.
 fn free_running(ctx: &Ctx, rounds: usize, out: &mut JobOut) {
     let threads = 16usize;
@@ -941,6 +1065,18 @@ pub fn run(ctx: &Ctx) -> CheckResult {
         free_running(ctx, rounds, &mut o);
         res.absorb(o);
     }
+    // (I) period sweep (one kind at a time: the point is what else happened in the process)
+    if !res.out.failed() {
+        let kinds: Vec<Kind> = ALL_KINDS.iter().copied().filter(|k| k.nperiods() == 1).collect();
+        let mut mach = vec![];
+        for k in kinds {
+            res.absorb(period_sweep_stage(k, &mut mach));
+            if res.out.failed() {
+                break;
+            }
+        }
+        res.machinery_errors.extend(mach);
+    }
     // (H) large windows, quiet twins and under load - one kind at a time (the load is part of the stage)
     if !res.out.failed() {
         let kinds: Vec<Kind> = ALL_KINDS.iter().copied().filter(|k| k.allocates() && k.nperiods() == 1).collect();
@@ -958,7 +1094,7 @@ pub fn run(ctx: &Ctx) -> CheckResult {
     res.require(res.out.stats.counters.get("schedules_threads").copied().unwrap_or(0) > 1 || res.out.failed(), "no multi-thread schedule was executed");
     res.rule = "case = (configuration, history h at which the clone is taken, schedule): objects {original after h, its clone, unrelated instance with other parameters} each get a continuation; a schedule = interleaving of their operations + assignment of every step to a real OS worker thread; oracle = every output bit-identical to a fresh instance replaying that object's own operations on the main thread; non-trivial = schedule executed on >= 1 worker thread other than main".into();
     res.bounds = format!(
-        "all 22 indicators, periods {{1,3}}, each part on the exact alphabet and on an inexact one (x -> 0.7x+0.013, so that summation order and buffer layout are observable under bit-equality); every history in seq(4 symbols, {hist_depth}) as clone point; (A) all {} merges of 3x{cont_len} ops on one thread; (B) histories up to length {thread_hist_depth}: 3 canonical merges x all worker assignments up to renaming on {k_workers} real threads x clone taken on worker 0/1; (B') for the empty history (thorough: histories up to length 1) the FULL product of all merges x all worker assignments x clone worker; (C) all 16x16 continuation pairs for original/clone under 3 sequential schedules; (G) Default::default() vs new(reported parameters) bit for bit; the merges also on an alphabet containing zeros; (F) ambient state: instances with the same parameters and history (periods 2, 32, 33, 64, 90) built first / after others were used past their wrap-around and dropped / as lock-step siblings / on another thread must agree bit for bit; (E) Clone::clone_from between instances with different parameters and histories (copy must replay like the source, source untouched); (D) periods 1..5(6): clone after every history up to depth 2(3) and after every prefix up to 2n+2 of two default streams, every continuation of n+2 inputs over 3 symbols for the clone while the original is fed different inputs in between; (H) period 8192: twin instances and a clone taken at the full window agree bit for bit on a quiet thread, and (SAMPLING) an instance fed while twelve other threads keep large-window instances busy (eight of the same kind); plus {rounds} free-running 16-thread rounds (SAMPLING, not part of the exhaustive claim)",
+        "all 22 indicators, periods {{1,3}}, each part on the exact alphabet and on an inexact one (x -> 0.7x+0.013, so that summation order and buffer layout are observable under bit-equality); every history in seq(4 symbols, {hist_depth}) as clone point; (A) all {} merges of 3x{cont_len} ops on one thread; (B) histories up to length {thread_hist_depth}: 3 canonical merges x all worker assignments up to renaming on {k_workers} real threads x clone taken on worker 0/1; (B') for the empty history (thorough: histories up to length 1) the FULL product of all merges x all worker assignments x clone worker; (C) all 16x16 continuation pairs for original/clone under 3 sequential schedules; (G) Default::default() vs new(reported parameters) bit for bit; the merges also on an alphabet containing zeros; (F) ambient state: instances with the same parameters and history (periods 2, 32, 33, 64, 90) built first / after others were used past their wrap-around and dropped / as lock-step siblings / on another thread must agree bit for bit; (E) Clone::clone_from between instances with different parameters and histories (copy must replay like the source, source untouched); (D) periods 1..5(6): clone after every history up to depth 2(3) and after every prefix up to 2n+2 of two default streams, every continuation of n+2 inputs over 3 symbols for the clone while the original is fed different inputs in between; (I) for every period q in 1..=600 the outputs of a fresh instance that follows an instance of period 3 / 9 / 14 / 20 in this process have the digest computed in two fresh processes (periods ascending / descending); (H) period 8192: twin instances and a clone taken at the full window agree bit for bit on a quiet thread, and (SAMPLING) an instance fed while twelve other threads keep large-window instances busy (eight of the same kind); plus {rounds} free-running 16-thread rounds (SAMPLING, not part of the exhaustive claim)",
         merges(&vec![cont_len; 3]).len()
     );
     let mut assumptions = vec![
